@@ -686,7 +686,11 @@ from fpv import k4inputs as K
 out = []
 for st in json.loads(sys.argv[3]):
     try:
-        kw = K.base_kwargs(fp, st["cls"])                    # fresh argument objects for every step
+        kw = K.base_kwargs(fp, st["cls"], node_mode=bool(st.get("node")))   # fresh argument objects for every step
+        if st.get("ignore") is not None and "elements_to_ignore" in K.signature(fp, st["cls"]):
+            kw["elements_to_ignore"] = list(st["ignore"])
+        if st.get("drop_node_flow"):
+            kw["G"].nodes[st["drop_node_flow"]].pop("flow", None)
         sig = K.signature(fp, st["cls"])
         if "optimization_options" in sig:
             kw["optimization_options"] = dict(st["opts"])
@@ -709,7 +713,7 @@ PROCESS_OPTS = [{"optimize_with_greedy": False},
                 {}]
 
 
-def process_state_case(ctx, rng, suite="C18.process_state"):
+def process_state_case(ctx, rng, suite="C18.process_state", node_variant=None):
     """every step gets fresh argument objects, so only state kept in the process (module-level caches, class attributes, solver
     globals) can connect the steps: the last step run alone in a fresh interpreter must give what it gives after the others"""
     import subprocess, sys, json as _json
@@ -734,6 +738,16 @@ def process_state_case(ctx, rng, suite="C18.process_state"):
             return _json.loads(p.stdout.strip().splitlines()[-1])
         except Exception:
             return None
+    if (rng.random() < 0.35) if node_variant is None else node_variant:
+        # node-weighted steps: an earlier model ignores a node / meets a node without value, the last one needs that node
+        ncls = [c for c in classes if c not in K.COVER] or classes
+        v = "b" if fam == "cyc" else "a"
+        first = {"cls": rng.choice(ncls), "opts": {}, "dk": 0, "node": True}
+        if rng.random() < 0.5 and first["cls"] not in K.FLOW_DECOMP:
+            first["ignore"] = [v]
+        else:
+            first["drop_node_flow"] = v
+        steps = [first, {"cls": rng.choice(ncls), "opts": {}, "dk": 0, "node": True}]
     after, alone = run(steps), run(steps[-1:])
     inp = {"family": "process", "history": steps}
     ctx.rep.count(suite, inp, nontrivial=True, hist=[fam, f"len={len(steps)}"])
@@ -782,8 +796,8 @@ def run(ctx):
         fam = "cyc" if it % 2 else "dag"
         history_case(ctx, fam, random_history(rng, fam))
     threads_history_case(ctx)
-    for it in range(ctx.n(5, 40)):
-        process_state_case(ctx, rng)
+    for it in range(ctx.n(6, 40)):
+        process_state_case(ctx, rng, node_variant=(True if it < 2 else None))
     ctx.rep.sample({"suite": "C18.mutation", "cls": "kLeastAbsErrors", "config": "plain",
                     "arguments": {"optimization_options": dict(NONEMPTY_OPTS), "solver_options": dict(SOLVER_OPTS)}})
     ctx.rep.sample({"suite": "C18.history", "history": [{"cls": "kLeastAbsErrors", "features": ["options", "given_weights"], "dk": 0},
